@@ -86,6 +86,19 @@ fn cdw_not_first(p: &PacketT, li: usize, link: &[PacketT], _wi: usize) -> bool {
     let _ = p;
     link[..li].iter().any(|q| q.words.iter().any(|w| w.kind == WKind::Cdw))
 }
+/// the packet carries at least one data word with a valid identifier, and it is not the link's first packet
+/// (so that an earlier IHW with the full lane set has been seen)
+fn has_data_later_packet(p: &PacketT, li: usize, _: &[PacketT], _wi: usize) -> bool {
+    li >= 1 && p.words.iter().any(|w| w.kind == WKind::Data && words::is_valid_data_id(w.bytes[9]))
+}
+/// Bit of the IHW active-lanes field that belongs to a data word identifier.
+pub fn lane_bit_of(id: u8) -> u32 {
+    if words::is_ib_id(id) {
+        words::ib_lane(id) as u32
+    } else {
+        words::ob_lane(id) as u32
+    }
+}
 fn ib_data(p: &PacketT, _: usize, _: &[PacketT], wi: usize) -> bool {
     words::is_ib_id(p.words[wi].bytes[9])
 }
@@ -181,6 +194,15 @@ pub fn catalogue() -> Vec<Fault> {
         wordf!("tdh.continuation bc differs", &["E441"], ItsRunning, &[WKind::TdhCont], any_word, |w, _| w[2] ^= 0x02),
         wordf!("tdh.continuation orbit differs", &["E442"], ItsRunning, &[WKind::TdhCont], any_word, |w, _| w[5] ^= 0x01),
         wordf!("tdh.continuation trigger type differs", &["E443"], ItsRunning, &[WKind::TdhCont], any_word, |w, _| w[0] ^= 0x20),
+        // the packet's own IHW switches off the lane of the packet's first data word (earlier IHWs had it on): the
+        // data words of that lane are then from an inactive lane; reported at the first of them
+        wordf!("ihw.lane of the first data word switched off", &["E72", "E71"], ItsRunning, IHWS, has_data_later_packet, |w, p| {
+            let id = p.words.iter().find(|x| x.kind == WKind::Data && words::is_valid_data_id(x.bytes[9])).map(|x| x.bytes[9]).unwrap();
+            let bit = lane_bit_of(id);
+            let mut lanes = u32::from_le_bytes([w[0], w[1], w[2], w[3]]);
+            lanes &= !(1 << bit);
+            w[0..4].copy_from_slice(&lanes.to_le_bytes());
+        }),
         wordf!("data.IB lane not active", &["E72"], ItsRunning, &[WKind::Data], ib_data, |w, _| w[9] = 0x27),
         wordf!("data.OB lane not active", &["E71"], ItsRunning, &[WKind::Data], ob_data, |w, p| {
             // a lane of the other connector pair is never active for this FEE
